@@ -23,6 +23,7 @@ func init() {
 		Run: runC28,
 		Controls: []Control{
 			{Name: "replaced-path-kept-when-the-new-one-is-ineligible", File: "routingtable/adjRIBIn/adj_rib_in.go", Old: "\ta.removePathsFromClients(pfx, oldPaths)\n\n\t// Bail out if this path is considered ineligible\n\tp.HiddenReason = a.validatePath(p)\n\tif p.HiddenReason != route.HiddenReasonNone {\n\t\treturn nil\n\t}\n", New: "\t// Bail out if this path is considered ineligible\n\tp.HiddenReason = a.validatePath(p)\n\tif p.HiddenReason != route.HiddenReasonNone {\n\t\treturn nil\n\t}\n\ta.removePathsFromClients(pfx, oldPaths)\n", Expect: "replaced-paths-withdrawn"},
+			{Name: "peer-as-from-the-two-octet-open-field", File: "protocols/bgp/server/bmp_router.go", Old: "\t\t\tpeerASN:         msg.PerPeerHeader.PeerAS,\n", New: "\t\t\tpeerASN:         uint32(recvOpen.ASN),\n", Expect: "bmp-peer-asn-from-the-per-peer-header"},
 			{Name: "adj-rib-in-created-before-the-open-is-evaluated", File: "protocols/bgp/server/bmp_router.go", Old: "\t}, fsm)\n\n\trib6, found := fsm.peer.vrf.RIBByName(\"inet6.0\")", New: "\t}, fsm)\n\tfsm.ipv4Unicast.bmpInit()\n\n\trib6, found := fsm.peer.vrf.RIBByName(\"inet6.0\")", Expect: "session-snapshot-after-negotiation"},
 			{Name: "ignored-peers-survive-the-session", File: "protocols/bgp/server/bmp_router.go", Old: "\tr.ignoredPeers = make(map[bnet.IP]struct{})\n}", New: "}", Expect: "session-state-ends-with-session"},
 			{Name: "decode-options-cached-in-the-neighbor", File: "protocols/bgp/server/bmp_router.go", Old: "\topt := s.fsm.decodeOptions()\n\topt.Use32BitASN = !msg.PerPeerHeader.GetAFlag()\n", New: "\topt := n.opt\n\topt.Use32BitASN = !msg.PerPeerHeader.GetAFlag()\n", Expect: "per-message-decode-options"},
@@ -39,6 +40,7 @@ func init() {
 }
 
 func runC28(c *core.Ctx) {
+	bmpPeerASNFromThePerPeerHeader(c, "bmp-peer-asn-from-the-per-peer-header")
 	sessionStateEndsWithSession(c)
 	perMessageOptionsAreFresh(c)
 	snapshotAfterNegotiation(c)
